@@ -91,7 +91,148 @@ def replay_file(doc):
         sim, obs, cl = run_scenario(doc["scenario"], doc["property"])
         bad = [c for c in cl if not c[2] and c[1] == doc["clause"]]
         return bool(bad), "\n".join(f"{c[1]}: {c[3]}" for c in bad[:5]) or "clause holds on this tree"
+    if doc.get("kind") == "resume_monitor":
+        ref = scen.build(doc["scenario"]); ref.run()
+        r = check_resume(doc["scenario"], doc["point"], doc["mode"], _trajectory(ref))
+        hit = r is not None and r[0] == doc["clause"]
+        return hit, (f"{r[0]}: {r[1]}" if hit else "clause holds on this tree")
     if doc.get("kind") == "fn_monitor":
         from . import fnmon
         return fnmon.replay(doc)
     raise ValueError("unknown replay kind")
+
+
+# ============================================================================ C09: interruption / serialisation / resume
+def _trajectory(sim):
+    import numpy as np
+    T = sim._iteration
+    return dict(
+        iteration=T,
+        pilots=np.array(sim.pilot_signals[:, :T], dtype=float),
+        rates=np.array(sim.charging_rates[:, :T], dtype=float),
+        energies={k: float(ev._energy_delivered) for k, ev in sim.ev_history.items()},
+        charges={k: float(ev._battery._current_charge) for k, ev in sim.ev_history.items()},
+        history=[(e.timestamp, type(e).__name__, getattr(getattr(e, "ev", None), "_session_id", None)) for e in sim.event_history],
+        peak=float(sim.peak),
+        sched_hist=None if sim.schedule_history is None else {int(k): {s: [float(x) for x in v] for s, v in d.items()} for k, d in sim.schedule_history.items()},
+    )
+
+
+def _same_traj(a, b):
+    import numpy as np
+    for k in ("iteration", "energies", "charges", "history", "peak", "sched_hist"):
+        if a[k] != b[k]:
+            return k
+    for k in ("pilots", "rates"):
+        if a[k].shape != b[k].shape or not np.array_equal(a[k], b[k]):
+            return k
+    return None
+
+
+def _shared_objects_ok(sim):
+    """an EV referenced from its station, the session history and pending events is one object"""
+    by_sid = {}
+    for k, ev in sim.ev_history.items():
+        by_sid[k] = ev
+    for e in sim.network._EVSEs.values():
+        if e._ev is not None and by_sid.get(e._ev._session_id) is not e._ev:
+            return f"station {e._station_id} holds a different object for session {e._ev._session_id}"
+    for ts, ev_ in sim.event_queue._queue:
+        x = getattr(ev_, "ev", None)
+        if x is not None and x._session_id in by_sid and by_sid[x._session_id] is not x:
+            return f"pending {type(ev_).__name__} refers to a different object for session {x._session_id}"
+    for ev_ in sim.event_history:
+        x = getattr(ev_, "ev", None)
+        if x is not None and x._session_id in by_sid and by_sid[x._session_id] is not x:
+            return f"history {type(ev_).__name__} refers to a different object for session {x._session_id}"
+    return None
+
+
+def resume_monitor(task):
+    """Every period of every scenario as interruption point, resumed directly and through a JSON round trip."""
+    import warnings
+    from acnportal import acnsim
+    prop, tier, seed0 = task["prop"], task.get("tier", "quick"), int(task.get("seed", 0))
+    n = 60 if tier == "quick" else 1500
+    t0 = time.time()
+    evals = 0
+    distinct = set()
+    viol = []
+
+    def bad(tag, detail, scn, point, mode):
+        if len(viol) < 5:
+            rp = write_replay(prop, f"resume_{tag}_{scn['seed']}_{point}_{mode}.json",
+                              dict(kind="resume_monitor", property=prop, clause=tag, detail=detail, scenario=scn, point=point, mode=mode))
+            viol.append(dict(what=f"{tag} (interrupt at {point}, {mode}): {detail}"[:300], replay=rp))
+
+    for k in range(n):
+        sc_kind = sched_for(2 * k + seed0)
+        if sc_kind["kind"] == "sorted" and sc_kind.get("estimate"):
+            sc_kind = dict(kind="sorted", sort="first_come_first_served")       # the estimator keeps state outside the simulator
+        finite = sc_kind["kind"] in ("sorted", "rr")
+        scn = scen.gen(seed0 * 100003 + 7 * k + 1, scheduler=sc_kind, allow_deadband=not finite, max_sessions=4)
+        try:
+            with warnings.catch_warnings():
+                warnings.simplefilter("ignore")
+                ref = scen.build(scn)
+                ref.run()
+                R = _trajectory(ref)
+                for point in range(R["iteration"]):
+                    for mode in ("direct", "json"):
+                        r = check_resume(scn, point, mode, R)
+                        if r is None:
+                            continue
+                        evals += 1
+                        distinct.add((scn["seed"], point, mode))
+                        if r[0] is not None:
+                            bad(r[0], r[1], scn, point, mode)
+        except Exception as e:
+            return dict(label=task.get("label", "resume_monitor"), error=f"scenario {k}: {type(e).__name__}: {e}")
+    return dict(label=task.get("label", "resume_monitor"),
+                bound=f"{n} seeded scenarios (<=4 stations, <=4 sessions, all scheduler kinds without external estimator state), EVERY period as "
+                      f"interruption point, resumed directly and after to_json/from_json + update_scheduler; compared with the uninterrupted run",
+                evaluations=evals, distinct_nontrivial=len(distinct), violations=viol, wall_s=round(time.time() - t0, 2))
+
+
+def check_resume(scn, point, mode, R):
+    """-> None if the scheduler is not invoked at `point`; (None, '') if equal; (tag, detail) otherwise"""
+    import warnings
+    from acnportal import acnsim
+    with warnings.catch_warnings():
+        warnings.simplefilter("ignore")
+        sim = scen.build(scn, fail_at=point)
+        try:
+            sim.run()
+            return None                                   # scheduler not invoked in that period: no interruption
+        except InterruptedError:
+            pass
+        if mode == "json":
+            sch = sim.scheduler
+            try:
+                sim2 = acnsim.Simulator.from_json(sim.to_json())
+            except Exception as e:
+                return ("json_round_trip_possible", f"{type(e).__name__}: {e}")
+            why = _shared_objects_ok(sim2)
+            if why:
+                return ("shared_ev_is_one_object_after_load", why)
+            d1, d2 = simcheck_digest(sim), simcheck_digest(sim2)
+            diff = simcheck.same_digest(d1, d2)
+            if diff:
+                return ("loaded_object_carries_complete_state", f"field group '{diff}' differs after load")
+            sim2.update_scheduler(sch)
+            sim = sim2
+        try:
+            sim.run()
+        except Exception as e:
+            return ("resumed_run_completes", f"{type(e).__name__}: {e}")
+        diff = _same_traj(_trajectory(sim), R)
+        if diff:
+            return ("resumed_equals_uninterrupted", f"'{diff}' differs from the uninterrupted run")
+    return (None, "")
+
+
+def simcheck_digest(sim):
+    d = simcheck.digest(sim)
+    d.pop("evses", None)
+    d["evses"] = {k: (type(e).__name__, e._current_pilot, None if e._ev is None else e._ev._session_id) for k, e in sim.network._EVSEs.items()}
+    return d
